@@ -6,6 +6,7 @@ set -u
 ID=$1; SRC=$2; shift 2; EXTRA="$*"
 export GOFLAGS=-mod=mod GOPROXY=off GOSUMDB=off GOTOOLCHAIN=local
 W=/tmp/mutchk_$ID
+rm -f /tmp/mutchk_$ID.*.log
 rm -rf $W; git -C /repo worktree prune; git -C /repo worktree add -q --detach $W HEAD || exit 3
 cp $SRC/demo.sh $W/demo.sh 2>/dev/null
 ( cd $W && bash demo.sh > /tmp/mutchk_$ID.orig.log 2>&1; echo "demo on original: exit $?" )
